@@ -2,6 +2,7 @@ package main
 
 import (
 	"fmt"
+	"go/constant"
 	"go/token"
 	"go/types"
 	"os"
@@ -90,13 +91,60 @@ func (g *Gen) lvalue(e *Env, x Expr) []leafRef {
 			return objLeaves(Add(base.T, Mul(IntLit(g.L.sizeOf(elem)), i)), elem)
 		}
 	case *ECall:
-		if x.Fn == "ite" && len(x.Args) == 3 {
-			// conditional assigns: ite(c, lv, nothing) -- only used as ite(cond, a, a')
+		if isRegionFn(x.Fn) {
+			return nil // a region of cells, not a list of leaves: see regions
 		}
 	}
 	e.fail("assigns: cannot resolve %s", exprString(x))
 	return nil
 }
+
+// region is a half-open interval [Lo, Hi) of cells of one array (the backing array of a slice of scalars).
+type region struct {
+	Key    string
+	Lo, Hi Term
+	Sort   Sort
+	Src    string
+}
+
+func isRegionFn(fn string) bool { return fn == "spare" || fn == "elems" || fn == "cells" }
+
+// regions resolves the region expressions of an assigns clause:
+//
+//	elems(s)  the cells s[0:len(s)]
+//	spare(s)  the cells s[len(s):cap(s)] - what append(s, ...) may write without reallocating
+//	cells(s)  both
+func (g *Gen) regions(e *Env, x Expr) []region {
+	c, ok := x.(*ECall)
+	if !ok || !isRegionFn(c.Fn) {
+		return nil
+	}
+	if len(c.Args) != 1 {
+		e.fail("assigns: %s takes one slice", c.Fn)
+	}
+	v := e.eval(c.Args[0])
+	if v.Ty.K != KSlice {
+		e.fail("assigns: %s of a non-slice", c.Fn)
+	}
+	es, sc := scalarSort(v.Ty.Elem)
+	if !sc {
+		e.fail("assigns: %s of a slice of non-scalars", c.Fn)
+	}
+	sz := IntLit(g.L.sizeOf(v.Ty.Elem))
+	lo, mid, hi := v.T, Add(v.T, Mul(sz, v.Len)), Add(v.T, Mul(sz, e.capOf(v)))
+	r := region{Key: cellKey(v.Ty.Elem), Sort: es, Src: exprString(x)}
+	switch c.Fn {
+	case "elems":
+		r.Lo, r.Hi = lo, mid
+	case "spare":
+		r.Lo, r.Hi = mid, hi
+	default:
+		r.Lo, r.Hi = lo, hi
+	}
+	return []region{r}
+}
+
+func (r region) contains(i Term) Term { return And(Le(r.Lo, i), Lt(i, r.Hi)) }
 
 func (vc *FuncVC) execCall(st *State, reach Term, ins *ssa.Call) {
 	common := ins.Common()
@@ -148,7 +196,7 @@ func (vc *FuncVC) havocAll(st *State) {
 	sort.Strings(ks)
 	for _, k := range ks {
 		st.heap[k] = vc.freshArray("HA_"+k, vc.keys[k])
-		vc.writes = append(vc.writes, writeRec{k, "*", vc.keys[k]})
+		vc.writes = append(vc.writes, writeRec{k, "*", vc.keys[k], false})
 	}
 	c := vc.fresh("cnt_havoc", SInt)
 	vc.assume(Ge(c, st.cnt))
@@ -182,25 +230,52 @@ func (vc *FuncVC) execBuiltin(st *State, reach Term, ins *ssa.Call, b *ssa.Built
 		vc.assume(And(Ge(c, IntLit(0)), Lt(c, BigLit(pow2big(62)))))
 		vc.vals[ins] = &Val{T: c, GoType: ins.Type()}
 	case "append":
-		// append(s, t...) for slices of scalars: a fresh backing array; the first eight elements are
-		// modelled exactly (s's, then t's), later ones are unconstrained
+		// append(s, t...) for slices of scalars. As in Go, the result reuses s's backing array when the new length
+		// fits its capacity and is a new array otherwise. The cells written - s's spare cells [len(s), len(s)+len(t))
+		// in the first case, the whole new array in the second - need a write permission like any store (a region
+		// obligation) and take unknown values, except that the first eight elements of the result are modelled
+		// exactly (s's, then t's). t may be a string (append(buf, "NaN"...)): then its bytes are unknown.
 		if len(args) == 2 {
 			sv, tv := vc.val(args[0]), vc.val(args[1])
-			if sl, ok := ins.Type().Underlying().(*types.Slice); ok && sv.Kind == vSlice && tv.Kind == vSlice {
+			_, tIsString := args[1].Type().Underlying().(*types.Basic)
+			if sl, ok := ins.Type().Underlying().(*types.Slice); ok && sv.Kind == vSlice && (tv.Kind == vSlice || tIsString) {
 				if es, sc := scalarSort(sl.Elem()); sc {
 					key := cellKey(sl.Elem())
-					ls, lt := sv.Elems[1].T, tv.Elems[1].T
-					ps, pt := sv.Elems[0].T, tv.Elems[0].T
+					ls, ps, caps := sv.Elems[1].T, sv.Elems[0].T, vc.capOf(sv)
+					var lt, pt Term
+					if tIsString {
+						lt = vc.fresh("strlen", SInt)
+						if c, isC := args[1].(*ssa.Const); isC && c.Value != nil && c.Value.Kind() == constant.String {
+							lt = IntLit(int64(len(constant.StringVal(c.Value))))
+						} else {
+							vc.assume(And(Ge(lt, IntLit(0)), Lt(lt, BigLit(pow2big(62)))))
+						}
+					} else {
+						lt, pt = tv.Elems[1].T, tv.Elems[0].T
+					}
 					n := vc.define("applen", Add(ls, lt))
-					p := st.cnt
-					st.cnt = vc.define("cnt", Add(st.cnt, Add(n, IntLit(1))))
+					fits := vc.define("appfits", Le(n, caps))
+					p := vc.define("appptr", Ite(fits, ps, st.cnt))
+					wlo := vc.define("applo", Ite(fits, Add(ps, ls), st.cnt))
+					whi := vc.define("apphi", Add(p, n))
+					ncap := vc.fresh("appcap", SInt)
+					vc.assume(And(Ge(ncap, n), Lt(ncap, BigLit(pow2big(62))), Implies(fits, Eq(ncap, caps))))
+					st.cnt = vc.define("cnt", Ite(fits, st.cnt, Add(st.cnt, Add(ncap, IntLit(1)))))
 					old := st.clone()
+					vc.checkRegionWrite(key, wlo, whi, "append")
+					na := vc.havocRegion(st, key, es, wlo, whi, TTrue, "app")
 					for k := int64(0); k < 8; k++ {
 						kk := IntLit(k)
-						v := Ite(Lt(kk, ls), vc.load(old, key, Add(ps, kk), es), vc.load(old, key, Add(pt, Sub(kk, ls)), es))
-						vc.storeLeaf(st, key, Add(p, kk), v)
+						var v Term
+						if tIsString {
+							v = vc.load(old, key, Add(ps, kk), es)
+							vc.assume(Implies(Lt(kk, ls), Eq(Select(na, Add(p, kk), es), v)))
+							continue
+						}
+						v = Ite(Lt(kk, ls), vc.load(old, key, Add(ps, kk), es), vc.load(old, key, Add(pt, Sub(kk, ls)), es))
+						vc.assume(Implies(Lt(kk, n), Eq(Select(na, Add(p, kk), es), v)))
 					}
-					vc.vals[ins] = &Val{Kind: vSlice, Elems: []*Val{{T: p}, {T: n}, vc.freshCap(n)}, GoType: ins.Type()}
+					vc.vals[ins] = &Val{Kind: vSlice, Elems: []*Val{{T: p}, {T: n}, {T: ncap}}, GoType: ins.Type()}
 					return
 				}
 			}
@@ -409,10 +484,15 @@ func (vc *FuncVC) applyContract(st *State, reach Term, ins *ssa.Call, callee *ss
 			for _, lf := range vc.lvalue(envPre, ax) {
 				vc.checkWrite(lf.Key, lf.Idx, "assigned by "+name)
 				vc.logWrite(lf.Key, lf.Idx, lf.Sort)
+				vc.writes[len(vc.writes)-1].chk = true
 				v := vc.havocLeaf(st, lf.Key, lf.Idx, lf.Sort, "h_"+callee.Name())
 				if lf.Type != nil {
 					vc.assume(rangeFact(v, lf.Type))
 				}
+			}
+			for _, r := range vc.regions(envPre, ax) {
+				vc.checkRegionWrite(r.Key, r.Lo, r.Hi, r.Src+" assigned by "+name)
+				vc.havocRegion(st, r.Key, r.Sort, r.Lo, r.Hi, TTrue, "hr_"+callee.Name())
 			}
 		}
 	}
@@ -784,6 +864,11 @@ func (vc *FuncVC) frameChecks(st *State, reach Term, k int, pos token.Pos) {
 		conds := []Term{Lt(IntLit(0), sk), Lt(sk, vc.entry.cnt)}
 		for _, ix := range byKey[key] {
 			conds = append(conds, Ne(sk, ix))
+		}
+		for _, r := range vc.entryRegions() {
+			if r.Key == key {
+				conds = append(conds, Not(r.contains(sk)))
+			}
 		}
 		goal := Implies(And(conds...), Eq(Select(final, sk, s), Select(init, sk, s)))
 		vc.oblige("F", fmt.Sprintf("frame/%s/ret%d", key, k), reach, goal, vc.propTags("C06", "C18", "C05"), pos, "only the assigns set is written: "+key)
